@@ -53,7 +53,12 @@ func main() {
 		"file compared with the model run on a schedule with the observed append order; stack: requests through " +
 		"dnssvc.NewHandlers with scripted device result/access/limiter/filter/upstream/failures and the real " +
 		"FileSystem log, effects compared with the model's serve and checked by the privacy oracle; a case is " +
-		"non-trivial when it has an escape-worthy string, an optional field, a non-default path or a profile"
+		"non-trivial when it has an escape-worthy string, an optional field, a non-default path or a profile; prov: the profiles " +
+		"are not built by hand but reach the stack the way production gets them — DNSProfile messages (all four query-log/IP-log " +
+		"combinations, every other boolean drawn independently, deleted profiles, linked and dedicated addresses, IDs with JSON-" +
+		"special characters) from an in-process gRPC backend through backendpb.ProfileStorage into a real profiledb.Default, its " +
+		"cache file, a database restarted from that file, an incremental or second full synchronisation with changed switches and " +
+		"another restart; every request is judged by the switches of the backend's latest message"
 	m := hlib.StartModel(o.Model, "C15")
 	defer m.Close()
 
@@ -68,6 +73,7 @@ func main() {
 	rotCampaign(o, r, m)
 	stackCampaign(o, r, m)
 	cstackCampaign(o, r, m)
+	provCampaign(o, r, m)
 
 	r.ModelOps = len(m.Log)
 	r.Finish()
@@ -1392,6 +1398,31 @@ type spec struct {
 	serr    error
 	mu      sync.Mutex
 	logs    []logged
+	// campaign prov: where the profile database got the profile from, the
+	// backend's message for it, and the model ops up to this request.
+	src     string
+	provMsg any
+	provOps []string
+}
+
+// violate reports a violation on s; in campaign prov the text says where the
+// profile came from and what the backend's message said.
+func (s *spec) violate(r *hlib.Result, sig, what string, replay any) {
+	if s.src != "" {
+		what += fmt.Sprintf(" [profile %q held by the profile database from the %s; the backend's latest message for it has "+
+			"query_log_enabled=%v ip_log_enabled=%v deleted=%v]", s.profID, s.src, s.qlog, s.iplog, s.devKind == "deleted")
+	}
+	r.Violate(s.sig(sig), what, replay)
+}
+
+// sig is the signature of a violation on s: in campaign prov it also names
+// the source of the profile.
+func (s *spec) sig(x string) string {
+	if s.src != "" {
+		return x + "+profile-from-" + s.src
+	}
+
+	return x
 }
 
 var kinds = []string{"none", "allowed", "blocked", "modresp", "modreq"}
@@ -1635,7 +1666,10 @@ func (r fakeRL) Check(context.Context, *dns.Msg, netip.Addr) agd.RatelimitResult
 func (r fakeRL) Config() *agd.RatelimitConfig                                     { return &agd.RatelimitConfig{} }
 func (r fakeRL) CountResponses(context.Context, *dns.Msg, netip.Addr)             {}
 
-func newFixture(seed uint64, conc bool) (f *fixture) {
+// newFixture builds the stack.  realDB, when not nil, is the profile database
+// the device finder asks instead of the scripted one (campaign prov), and the
+// log file is called logName.
+func newFixture(seed uint64, conc bool, logName string, realDB profiledb.Interface) (f *fixture) {
 	f = &fixture{servers: map[string]*agd.Server{}, conc: conc}
 	cloner := agdtest.NewCloner()
 	mkMsgs := func(mode dnsmsg.BlockingMode) *dnsmsg.Constructor {
@@ -1687,6 +1721,10 @@ func newFixture(seed uint64, conc bool) (f *fixture) {
 	pdb.OnProfileByLinkedIP = func(ctx context.Context, _ netip.Addr) (*agd.Profile, *agd.Device, error) { return lookup(ctx) }
 	pdb.OnProfileByDeviceID = func(ctx context.Context, _ agd.DeviceID) (*agd.Profile, *agd.Device, error) { return lookup(ctx) }
 	pdb.OnProfileByDedicatedIP = func(ctx context.Context, _ netip.Addr) (*agd.Profile, *agd.Device, error) { return lookup(ctx) }
+	var db profiledb.Interface = pdb
+	if realDB != nil {
+		db = realDB
+	}
 	flt := &agdtest.Filter{
 		OnFilterRequest: func(ctx context.Context, req *filter.Request) (filter.Result, error) {
 			s := f.specCtx(ctx)
@@ -1720,7 +1758,7 @@ func newFixture(seed uint64, conc bool) (f *fixture) {
 		},
 		OnFilterResponse: func(context.Context, *filter.Response) (filter.Result, error) { return nil, nil },
 	}
-	f.fs, f.logPath = newFS(map[bool]string{false: "stack.jsonl", true: "cstack.jsonl"}[conc], seed)
+	f.fs, f.logPath = newFS(logName, seed)
 	ql := &agdtest.QueryLog{OnWrite: func(ctx context.Context, e *querylog.Entry) error {
 		s := f.specCtx(ctx)
 		cp := *e
@@ -1751,7 +1789,7 @@ func newFixture(seed uint64, conc bool) (f *fixture) {
 	f.st = stack.New(&stack.Config{
 		Messages:  f.msgs,
 		Cloner:    cloner,
-		ProfileDB: pdb,
+		ProfileDB: db,
 		QueryLog:  ql,
 		Servers: []*agd.Server{f.servers["dns"], f.servers["dot"], f.servers["dnsif"], f.servers["doh"], f.servers["doq"],
 			f.servers["dnscrypt"]},
@@ -1924,56 +1962,60 @@ func (s *spec) dropped() bool {
 // oracle checks the property on what one request produced, without the model.
 func oracle(r *hlib.Result, s *spec, bills []stack.BillRec, checkBills bool) {
 	replay := map[string]any{"campaign": "stack", "op": s.line, "serve_error": fmt.Sprint(s.serr)}
+	if s.src != "" {
+		replay = map[string]any{"campaign": "prov", "op": s.line, "serve_error": fmt.Sprint(s.serr), "profile_source": s.src,
+			"backend_message": s.provMsg, "model_ops": s.provOps, "how": provHow}
+	}
 	logs := s.logs
 	attributed := s.attributedIn()
 	dropped := s.dropped()
 	if s.serr != nil && strings.HasPrefix(s.serr.Error(), "panic:") {
-		r.Violate("panic-while-serving", "the handler panicked: "+s.serr.Error(), replay)
+		s.violate(r, "panic-while-serving", "the handler panicked: "+s.serr.Error(), replay)
 	}
 	if len(logs) > 1 {
-		r.Violate("several-entries-for-one-request", fmt.Sprintf("%d log entries for one request", len(logs)), replay)
+		s.violate(r, "several-entries-for-one-request", fmt.Sprintf("%d log entries for one request", len(logs)), replay)
 	}
 	if len(logs) > 0 && !attributed {
-		r.Violate("logged-without-profile", "a query that was not attributed to a profile ("+s.devKind+"/"+s.srv+") was logged", replay)
+		s.violate(r, "logged-without-profile", "a query that was not attributed to a profile ("+s.devKind+"/"+s.srv+") was logged", replay)
 	}
 	if len(logs) > 0 && attributed && !s.qlog {
-		r.Violate("logged-with-querylog-disabled", "profile has query logging disabled but the query was logged", replay)
+		s.violate(r, "logged-with-querylog-disabled", "profile has query logging disabled but the query was logged", replay)
 	}
 	if len(logs) > 0 && (dropped || s.ecs == 2) {
-		r.Violate("dropped-or-blocked-query-recorded", "a dropped / access-blocked / malformed query was logged", replay)
+		s.violate(r, "dropped-or-blocked-query-recorded", "a dropped / access-blocked / malformed query was logged", replay)
 	}
 	if checkBills {
 		if len(bills) > 1 {
-			r.Violate("several-bills-for-one-request", fmt.Sprintf("%d billing records for one request", len(bills)), replay)
+			s.violate(r, "several-bills-for-one-request", fmt.Sprintf("%d billing records for one request", len(bills)), replay)
 		}
 		if len(bills) > 0 && !attributed {
-			r.Violate("billed-without-profile", "a query that was not attributed to a profile ("+s.devKind+"/"+s.srv+") was billed", replay)
+			s.violate(r, "billed-without-profile", "a query that was not attributed to a profile ("+s.devKind+"/"+s.srv+") was billed", replay)
 		}
 		if len(bills) > 0 && (dropped || s.ecs == 2) {
-			r.Violate("dropped-or-blocked-query-recorded", "a dropped / access-blocked / malformed query was billed", replay)
+			s.violate(r, "dropped-or-blocked-query-recorded", "a dropped / access-blocked / malformed query was billed", replay)
 		}
 		for _, b := range bills {
 			if attributed && (string(b.Dev) != s.devID || b.Proto != s.proto()) {
-				r.Violate("bill-not-own-request", fmt.Sprintf("billing record %+v is not this request's", b), replay)
+				s.violate(r, "bill-not-own-request", fmt.Sprintf("billing record %+v is not this request's", b), replay)
 			}
 		}
 	}
 	for _, lg := range logs {
 		e := lg.e
 		if e.RemoteIP.IsValid() && !s.iplog {
-			r.Violate("ip-logged-with-iplog-disabled", "profile has IP logging disabled but the entry has the client address "+e.RemoteIP.String(), replay)
+			s.violate(r, "ip-logged-with-iplog-disabled", "profile has IP logging disabled but the entry has the client address "+e.RemoteIP.String(), replay)
 		}
 		if lg.chunk != nil && bytes.Contains(lg.chunk, []byte(`"ip"`)) && !s.iplog {
-			r.Violate("ip-logged-with-iplog-disabled", "profile has IP logging disabled but the line has an ip property", replay)
+			s.violate(r, "ip-logged-with-iplog-disabled", "profile has IP logging disabled but the line has an ip property", replay)
 		}
 		if e.RemoteIP.IsValid() && e.RemoteIP != s.ip.Unmap() {
-			r.Violate("entry-wrong-ip", "logged address is not the client's", replay)
+			s.violate(r, "entry-wrong-ip", "logged address is not the client's", replay)
 		}
 		own := e.DomainFQDN == s.name && e.RequestType == s.qtype && e.Protocol == s.proto() &&
 			string(e.ProfileID) == s.profID && string(e.DeviceID) == s.devID && e.RequestID == ridOf(s.idx) &&
 			e.Time.UnixMilli() == s.startMs && e.RequestResult == s.gotReq
 		if !own {
-			r.Violate("entry-not-own-request", fmt.Sprintf("entry %+v does not describe request %s", e, s.line), replay)
+			s.violate(r, "entry-not-own-request", fmt.Sprintf("entry %+v does not describe request %s", e, s.line), replay)
 		}
 		// doc/querylog.md, properties c and a: the detected country and ASN of
 		// the client's address; d: the country of the first address of the
@@ -1983,25 +2025,25 @@ func oracle(r *hlib.Result, s *spec, bills []stack.BillRec, checkBills bool) {
 			wantCtry, wantASN = s.locCtry, s.locASN
 		}
 		if string(e.ClientCountry) != wantCtry || uint32(e.ClientASN) != wantASN {
-			r.Violate("entry-wrong-client-location", fmt.Sprintf("entry has client country %q and ASN %d, the client's are %q and %d",
+			s.violate(r, "entry-wrong-client-location", fmt.Sprintf("entry has client country %q and ASN %d, the client's are %q and %d",
 				e.ClientCountry, e.ClientASN, wantCtry, wantASN), replay)
 		}
 		if d := string(e.ResponseCountry); d != "QN" && d != s.geoCtry {
-			r.Violate("entry-wrong-response-country", fmt.Sprintf("entry has response country %q, this request's response address is in %q", d, s.geoCtry), replay)
+			s.violate(r, "entry-wrong-response-country", fmt.Sprintf("entry has response country %q, this request's response address is in %q", d, s.geoCtry), replay)
 		}
 		if s.rw.msg != nil && s.rw.msg.Rcode <= 0xFFF && e.ResponseCountry != "QN" &&
 			(s.rw.msg.Rcode != 0 || firstAddr(shapeOf(s.rw.msg)) != "addr" && firstAddr(s.orig.shape) != "addr") {
-			r.Violate("entry-wrong-response-country", fmt.Sprintf("entry has response country %q although the response (rcode %d) has no address to locate",
+			s.violate(r, "entry-wrong-response-country", fmt.Sprintf("entry has response country %q although the response (rcode %d) has no address to locate",
 				e.ResponseCountry, s.rw.msg.Rcode), replay)
 		}
 		if s.reqKind != 4 && e.ResponseResult != s.gotResp {
-			r.Violate("entry-not-own-request", "entry's response verdict is not the one the filter gave for this request", replay)
+			s.violate(r, "entry-not-own-request", "entry's response verdict is not the one the filter gave for this request", replay)
 		}
 		if s.reqKind == 4 && e.ResponseResult != nil {
-			r.Violate("entry-not-own-request", "entry has a response verdict although the response of a rewritten request is not filtered", replay)
+			s.violate(r, "entry-not-own-request", "entry has a response verdict although the response of a rewritten request is not filtered", replay)
 		}
 		if s.rw.msg != nil && s.rw.msg.Rcode <= 0xFFF && int(e.ResponseCode) != s.rw.msg.Rcode {
-			r.Violate("entry-wrong-rcode", fmt.Sprintf("entry rcode %d, client got %d", e.ResponseCode, s.rw.msg.Rcode), replay)
+			s.violate(r, "entry-wrong-rcode", fmt.Sprintf("entry rcode %d, client got %d", e.ResponseCode, s.rw.msg.Rcode), replay)
 		}
 		if lg.chunk != nil {
 			checkLine(r, "stack", &e, lg.chunk, replay)
@@ -2037,10 +2079,10 @@ func checkLineOwn(r *hlib.Result, s *spec, chunk []byte, replay any) {
 		obj.Q == int(s.qtype) && obj.P == int(s.proto()) && obj.F == code && obj.L == goValid(list) && obj.M == goValid(rule) &&
 		obj.T == s.startMs
 	if !ok {
-		r.Violate("line-not-own-request", fmt.Sprintf("log line %q does not describe request %s", truncateB(chunk, 300), s.line), replay)
+		s.violate(r, "line-not-own-request", fmt.Sprintf("log line %q does not describe request %s", truncateB(chunk, 300), s.line), replay)
 	}
 	if obj.IP != nil && (!s.iplog || *obj.IP != s.ip.Unmap().String()) {
-		r.Violate("ip-logged-with-iplog-disabled", "log line has ip="+*obj.IP+" (iplog="+b2s(s.iplog)+", client "+s.ip.Unmap().String()+")", replay)
+		s.violate(r, "ip-logged-with-iplog-disabled", "log line has ip="+*obj.IP+" (iplog="+b2s(s.iplog)+", client "+s.ip.Unmap().String()+")", replay)
 	}
 }
 
@@ -2148,7 +2190,7 @@ func stackCampaign(o *hlib.Opts, r *hlib.Result, m *hlib.Model) {
 	if o.Thorough() {
 		n = 300000
 	}
-	f := newFixture(rng.Uint64(), false)
+	f := newFixture(rng.Uint64(), false, "stack.jsonl", nil)
 	var lines, gots []string
 	flush := func() {
 		if len(lines) == 0 {
@@ -2206,7 +2248,7 @@ func cstackCampaign(o *hlib.Opts, r *hlib.Result, m *hlib.Model) {
 	if o.Thorough() {
 		batches, per = 150, 600
 	}
-	f := newFixture(rng.Uint64(), true)
+	f := newFixture(rng.Uint64(), true, "cstack.jsonl", nil)
 	var fileOff int64
 	for b := 0; b < batches; b++ {
 		specs := make([]*spec, per)
